@@ -152,7 +152,7 @@ class PassHarness(Harness):
             m2 = read_module(io.StringIO(text))
             entry = "f"
         else:
-            src, entry, ext = cprogs.PROGS[self.prog]
+            src, entry, ext = {**cprogs.PROGS, **cprogs.PROGS_EXT}[self.prog]
             m1 = _tv.c_module(src)
             m2 = _tv.c_module(src)
         inp = _tv.declare_inputs(mk, m1, entry)
@@ -242,7 +242,7 @@ NO_SYMCONST = {"const_fold", "global_array", "local_array", "store_load_alias_st
 
 def jobs_for(prop, tier, seed):
     js = []
-    progs = sorted(p for p in cprogs.PROGS if tier != "quick" or p not in HEAVY)
+    progs = sorted(p for p in {**cprogs.PROGS, **cprogs.PROGS_EXT} if tier != "quick" or p not in HEAVY)
     symc = ("ConstantFolder", "RemoveAddZeroPass", "CJumpPass", "LoadAfterStorePass")
     for n, p in enumerate(progs):
         if tier == "quick":
